@@ -168,31 +168,32 @@ theorem decodeWith_np (coll : Order → Bytes → R (List G × Bytes)) (s : Byte
   · rename_i heq
     exact (np_absurd heq (readBOT_np _)).elim
 
-theorem readCollectionF_np (fuel : Nat) : ∀ (o : Order) (s : Bytes), s.length < fuel →
-    (readCollectionF fuel o s).isPanic = false := by
-  induction fuel with
-  | zero => intro o s h; omega
-  | succ fuel ih =>
-    intro o s hs
+/-- `readCollection` never panics, whatever number of levels is left: with none left it answers
+    `ErrNestingTooDeep` (the recursion is structural in that number: the decoder terminates, and its
+    depth is bounded by it, see `decode_depth_le`). -/
+theorem readCollectionF_np (left : Nat) : ∀ (o : Order) (s : Bytes),
+    (readCollectionF left o s).isPanic = false := by
+  induction left with
+  | zero => intro o s; rfl
+  | succ left ih =>
+    intro o s
     simp only [readCollectionF]
     split
-    · rename_i hn
-      have := readU32_len hn
-      apply collLoop_np _ fuel
-      · intro t ht
-        exact decodeWith_np _ _ (fun o s' h => ih o s' (by omega))
+    · rename_i num s1 hn
+      apply collLoop_np _ s1.length
+      · intro t _
+        exact decodeWith_np _ _ (fun o s' _ => ih o s')
       · intro t g sr r hd
-        have := decodeWith_size _ (readCollectionF_size fuel) hd
+        have := decodeWith_size _ (readCollectionF_size left) hd
         omega
-      · omega
+      · exact Nat.le_refl _
     · rfl
     · rename_i heq
       exact (np_absurd heq (readU32_np _ _)).elim
 
-theorem decodeStream_np (fuel : Nat) (s : Bytes) (h : s.length ≤ fuel + 4) :
-    (decodeStream fuel s).isPanic = false := by
+theorem decodeStream_np (left : Nat) (s : Bytes) : (decodeStream left s).isPanic = false := by
   unfold decodeStream
-  exact decodeWith_np _ _ (fun o s' h' => readCollectionF_np fuel o s' (by omega))
+  exact decodeWith_np _ _ (fun o s' _ => readCollectionF_np left o s')
 
 theorem decodeStream_size {fuel : Nat} {s r : Bytes} {g : G} {srid : Nat}
     (h : decodeStream fuel s = .ok (g, srid, r)) : 16 * pointCount g + r.length ≤ s.length :=
@@ -204,7 +205,7 @@ theorem decode_np (bs : Bytes) : (decode bs).isPanic = false := by
   · rfl
   · rfl
   · rename_i heq
-    exact (np_absurd heq (decodeStream_np _ _ (by omega))).elim
+    exact (np_absurd heq (decodeStream_np _ _)).elim
 
 /-! ### byte path: totality -/
 
@@ -220,9 +221,9 @@ theorem unmarshal_np (bs : Bytes) : (unmarshal bs).isPanic = false := by
       | (rename_i heq; exact (np_absurd heq (unmarshalPoint_np _ _)).elim)
       | (rename_i heq; exact (np_absurd heq (unmarshalPoints_np _ _)).elim)
       | (rename_i heq; exact (np_absurd heq (unmarshalPolygon_np _ _)).elim)
-      | (rename_i heq; exact (np_absurd heq (unmarshalMultiPoint_np _ _ _ (by omega))).elim)
-      | (rename_i heq; exact (np_absurd heq (unmarshalMultiLineString_np _ _ _ (by omega))).elim)
-      | (rename_i heq; exact (np_absurd heq (unmarshalMultiPolygon_np _ _ _ (by omega))).elim)
+      | (rename_i heq; exact (np_absurd heq (unmarshalMultiPoint_np _ _)).elim)
+      | (rename_i heq; exact (np_absurd heq (unmarshalMultiLineString_np _ _)).elim)
+      | (rename_i heq; exact (np_absurd heq (unmarshalMultiPolygon_np _ _)).elim)
       | (rename_i heq; exact (np_absurd heq (decode_np _)).elim)
   · rfl
   · rename_i heq
@@ -237,13 +238,11 @@ theorem scanDest_np (bnd : BoundFn) (d : Dest) (data : Bytes) : (scanDest bnd d 
     | (rename_i heq; exact (np_absurd heq (unmarshalBOT_np _)).elim)
     | (rename_i heq; exact (np_absurd heq (unmarshalPoints_np _ _)).elim)
     | (rename_i heq; exact (np_absurd heq (unmarshalPolygon_np _ _)).elim)
-    | (rename_i heq; exact (np_absurd heq (scanPoint_np _ _ (by omega))).elim)
-    | (rename_i heq; exact (np_absurd heq (scanLineString_np _ _ (by omega))).elim)
-    | (rename_i heq; exact (np_absurd heq (scanPolygon_np _ _ (by omega))).elim)
-    | (rename_i heq; exact (np_absurd heq (unmarshalMultiLineString_np _ _ _
-        (by have := unmarshalBOT_len ‹unmarshalBOT _ = _›; omega))).elim)
-    | (rename_i heq; exact (np_absurd heq (unmarshalMultiPolygon_np _ _ _
-        (by have := unmarshalBOT_len ‹unmarshalBOT _ = _›; omega))).elim)
+    | (rename_i heq; exact (np_absurd heq (scanPoint_np _)).elim)
+    | (rename_i heq; exact (np_absurd heq (scanLineString_np _)).elim)
+    | (rename_i heq; exact (np_absurd heq (scanPolygon_np _)).elim)
+    | (rename_i heq; exact (np_absurd heq (unmarshalMultiLineString_np _ _)).elim)
+    | (rename_i heq; exact (np_absurd heq (unmarshalMultiPolygon_np _ _)).elim)
 
 /-! ### Scan framing -/
 
@@ -405,7 +404,7 @@ theorem unmarshal_size_le' (bs : Bytes) (g : G) (s : Nat) (h : unmarshal bs = .o
         split at h
         · rename_i hm
           injection h with h; injection h with h h'; subst h; subst h'
-          have h1 := unmarshalMultiF_len _ _ _ _ _ _ _ _ hm
+          have h1 := unmarshalMultiF_len _ _ _ _ _ _ hm
           have h2 := sum_map_le16 (fun _ => 1) (fun _ : Pt UInt64 => 21) ‹_› (fun _ => by simp)
           rw [sum_map_one] at h2
           simp only [pointCount]; omega
@@ -423,7 +422,7 @@ theorem unmarshal_size_le' (bs : Bytes) (g : G) (s : Nat) (h : unmarshal bs = .o
             split at h
             · rename_i hm
               injection h with h; injection h with h h'; subst h; subst h'
-              have h1 := unmarshalMultiF_len _ _ _ _ _ _ _ _ hm
+              have h1 := unmarshalMultiF_len _ _ _ _ _ _ hm
               have h2 := sum_map_le16 List.length (fun ls : List (Pt UInt64) => 16 * ls.length + 9) ‹_›
                 (fun _ => by omega)
               simp only [pointCount]; omega
@@ -444,7 +443,7 @@ theorem unmarshal_size_le' (bs : Bytes) (g : G) (s : Nat) (h : unmarshal bs = .o
                 split at h
                 · rename_i hm
                   injection h with h; injection h with h h'; subst h; subst h'
-                  have h1 := unmarshalMultiF_len _ _ _ _ _ _ _ _ hm
+                  have h1 := unmarshalMultiF_len _ _ _ _ _ _ hm
                   have h2 := sum_map_le16 (fun p : List (List (Pt UInt64)) => (p.map List.length).sum)
                     polyStride ‹_› (fun p => by
                       have := sum_map_le16 List.length (fun r : List (Pt UInt64) => 4 + 16 * r.length) p
